@@ -110,7 +110,7 @@ def claim_packet(kind, src):
     return (wire.actisense_line(6, 60928, src, 255, data) + "\r\n").encode()
 
 
-def fault_session(kind, fault, step, settle=40.0, scb="ok", second=None, mapping=False, bystander=False, cb_style="method"):
+def fault_session(kind, fault, step, settle=40.0, scb="ok", second=None, mapping=False, bystander=False, cb_style="method", recv_cb="ok", burst=0):
     """second = (fault kind, virtual seconds after the start) injects another fault after the first recovery."""
     info = {"injected": False, "inject_step": None, "inject_time": None, "conn_at_fault": None, "second_injected": False}
 
@@ -126,6 +126,10 @@ def fault_session(kind, fault, step, settle=40.0, scb="ok", second=None, mapping
                 info.update(injected=True, inject_step=loop.steps, inject_time=loop.time() - 1000.0, conn_at_fault=c.id)
             else:
                 info.update(second_injected=True, second_time=loop.time() - 1000.0, second_step=loop.steps, second_conn=c.id)
+            if burst and first and fault not in ("busy_reply",):
+                # a burst of frames right before the fault: with a receive callback that takes its time they are still queued when
+                # the link goes and the next one comes up
+                c.feed(b"".join(packet(kind, 150 + i_) for i_ in range(burst)))
             sim.ev("fault", fault=fault, conn=c.id)
             if fault == "eof":
                 c.feed_eof()
@@ -193,7 +197,8 @@ def fault_session(kind, fault, step, settle=40.0, scb="ok", second=None, mapping
         info["elapsed"] = loop.time() - 1000.0
         info["ticks"] = sim.heartbeat_ticks
         await sim.close_guarded()
-    sim, stats = simgw.run_session(kind, scenario, status_cb=scb, client_kwargs={"build_network_map": True} if mapping else None, bystander=bystander, cb_style=cb_style)
+    sim, stats = simgw.run_session(kind, scenario, status_cb=scb, client_kwargs={"build_network_map": True} if mapping else None, bystander=bystander, cb_style=cb_style,
+                                   recv_cb=recv_cb)
     return sim, stats, info
 
 
@@ -550,8 +555,12 @@ def run_shard(spec, acc):
         seconds = ["reset", "eof"]
     for k_, step in enumerate(steps):
         by = k_ % 3 == 2            # every third session: an untouched second client in the same process must not notice anything
+        backlog = k_ % 5 == 3 and not mapping
         sim, stats, info = fault_session(kind, fault, step, scb=scb, mapping=mapping, settle=50.0 if fault == "busy_reply" else 40.0, bystander=by,
-                                        cb_style=("method", "object", "lambda", "partial", "orphan-method")[k_ % 5])
+                                        cb_style=("method", "object", "lambda", "partial", "orphan-method")[k_ % 5],
+                                        recv_cb="slow" if backlog else "ok", burst=12 if backlog else 0)
+        if backlog:
+            acc.count("fault_sessions_with_a_backlog_in_a_slow_receive_callback")
         check_recovery(sim, stats, info, acc, kind, fault, step, scb)
         if by and sim is not None and not stats["error"]:
             simgw.judge_bystander(sim, acc, {"client": kind, "fault": fault, "step": step, "status_cb": scb})
